@@ -18,9 +18,9 @@ type WorldOpts struct {
 	MaxPkgs  int
 	Versions int
 	Decoys   bool
-	Natives  string // "host" (default) or "none": whether files use host.Mark
-	Cyclic   bool   // add one back edge
-	Conflict bool   // give one package two different package clauses
+	Natives  string  // "host" (default) or "none": whether files use host.Mark
+	Cyclic   bool    // add one back edge
+	Conflict bool    // give one package two different package clauses
 	Edges    [][]int // explicit import graph (node 0 is main); overrides MaxPkgs/Cyclic
 	Plain    bool    // full-path layout, one file per package, no extras
 }
